@@ -89,7 +89,35 @@ def build_input(c):
     shape = tuple(c["shape"])
     if c.get("as_list") and len(shape) == 1:
         return list(c["data"])
-    return numpy.array(c["data"], dtype=c.get("in_dtype", "int64")).reshape(shape)
+    a = numpy.array(c["data"], dtype=c.get("in_dtype", "int64")).reshape(shape)
+    return with_layout(a, c.get("layout"))
+
+
+def with_layout(a, kind):
+    """Same values and dtype in another memory layout / container (the FORM of the argument; harness/forms.py)."""
+    if not kind or kind == "c":
+        return a
+    if kind == "fortran" and a.ndim == 2:
+        return numpy.asfortranarray(a)
+    if kind == "transposed-store" and a.ndim == 2:
+        return numpy.ascontiguousarray(a.T).T
+    if kind == "strided" and a.shape[0] > 0:
+        big = numpy.zeros((a.shape[0] * 2,) + a.shape[1:], dtype=a.dtype)
+        big[::2] = a
+        return big[::2]
+    if kind == "negstride":
+        return a[::-1].copy()[::-1]
+    if kind == "colview" and a.ndim == 2 and a.shape[1] > 0:
+        big = numpy.zeros((a.shape[0], a.shape[1] * 2), dtype=a.dtype)
+        big[:, ::2] = a
+        return big[:, ::2]
+    if kind == "readonly":
+        b = a.copy()
+        b.setflags(write=False)
+        return b
+    if kind == "list":
+        return a.tolist()
+    return a
 
 
 def kwargs_of(c):
